@@ -196,6 +196,20 @@ def c08(tier, seed):
     ]
 
 
+def c03(tier, seed):
+    q = tier == "quick"
+    return [
+        MC("Gen_Convert", dict(Groups="={}"), invariants=["NoWrapIdeal"], label="MC_Convert/no-third-outcome"),
+        MC("Gen_Convert", dict(Groups='={{"FloatBoundsNaN"}}'), invariants=["NoWrapKnown"], expect_violation=True,
+           label="MC_Convert/refute-FloatBoundsNaN"),
+        MC("Gen_Convert", dict(Groups='={{"DurationNoOverflowCheck"}}'), invariants=["NoWrapKnown"], expect_violation=True,
+           label="MC_Convert/refute-DurationNoOverflowCheck"),
+        GEN("Gen_Convert", {}, "conv", label="Gen_Convert/boundaries", min_cases=3000),
+        TRACE("Trace_Convert", "conv", n=20000 if q else 500000, label="Trace_Convert/random-bit-patterns",
+              trace_file="trace_conv.ndjson"),
+    ]
+
+
 ASSUME_COMMON = [
     "the public-API observation (Unpack into map and slice, canonicalised) reads the abstract state faithfully",
     "TLC, the JVM, the Go toolchain and runtime",
@@ -222,6 +236,13 @@ VAR_RULE = ("Gen_VarExp: every assignment of expression shapes (literal, ${x}, r
             "crash-isolated child process. non-trivial: every world; distinct by world")
 
 CHECKS = {
+    "C03": dict(stages=c03, family="conv",
+                rule="Gen_Convert: 4 source kinds (Go int64, uint64, float64, decimal text) x (19 named boundaries x offsets -2..2 x "
+                     "{whole, half} + NaN, +Inf, -Inf) x 13 targets (int8..int64, int, uint8..uint64, uint, float32/64, Duration), each through "
+                     "a struct field, a pointer field, a named type, a ${reference} and - for 64-bit targets - the typed getter; pairs the "
+                     "source kind cannot represent exactly are skipped (counted); Trace_Convert: random bit patterns classified with math/big. "
+                     "non-trivial: every representable combination; distinct by (source kind, number, target)",
+                assumptions=ASSUME_COMMON + ["the boundary table (names -> exact values) is checked at start-up against math.MaxInt64 etc.; exactness of the stored value is decided with math/big"]),
     "C02": dict(stages=c02, family="varexp", rule=VAR_RULE + "; late binding: the same worlds built by two Merge calls over a random split of the settings",
                 assumptions=ASSUME_COMMON + ["literal alphabets are chosen so that the value parser reads a splice result back as the same text (C17 covers the parser)"]),
     "C08": dict(stages=c08, family="varexp", rule=VAR_RULE + "; UcfgVarExpSteps: liveness (termination) over all 8000 graphs of three settings x 3 queries x 2 entry modes",
